@@ -28,7 +28,7 @@ func init() {
 		}
 		evaluator := *funcs.Fetch("aspectEliminationHeuristic")
 		for c := 0; c < n; c++ {
-			q := genRequest(r, ReqOpts{Methods: []string{"aspectEliminationHeuristic"}, Prob: ProbOpts{MaxAlt: maxAlt, MaxCrit: 5}})
+			q := genRequest(r, ReqOpts{Methods: []string{"aspectEliminationHeuristic"}, ExtraWeightKey: 0.12, Prob: ProbOpts{MaxAlt: maxAlt, MaxCrit: 5}})
 			mp := q.Body["methodParameters"].(J)
 			heurShapeProblem(r, q)
 			heurShapeLevels(r, mp, true)
